@@ -197,6 +197,9 @@ pub fn c20(tier: Tier) -> i32 {
         .reduce(Acc::new, Acc::merge);
     eprintln!("  [C20] {} sessions", part.states);
     acc = Acc::merge(acc, part);
+    // malformed JSON ledgers: a multi-byte character slides over every offset around the error position, for
+    // four kinds of error, through three tools; every request must be answered (with an error)
+    malformed_json_sweep(&ctx, &mut acc);
     // every fixture ledger: MCP answers equal the CLI's; explain_matching explains every listed disposal
     fixtures(&ctx, &mut acc);
     ctx.require(acc.get("sessions-with-pipelined-requests") > 0 && acc.get("fixtures:compared") >= 30, "pipelined sessions and fixture comparisons must be exercised");
@@ -287,6 +290,63 @@ fn fixtures(ctx: &Ctx, acc: &mut Acc) {
                 _ => push(&mut acc, "mcp-differs-from-cli", format!("one of CLI/MCP fails and the other does not (cli ok {}, mcp ok {}): {}", cli_rep.is_some(), mcp_rep.is_some(), cli.err().chars().take(200).collect::<String>())),
             }
             let _ = m.finish();
+            acc
+        })
+        .reduce(Acc::new, Acc::merge);
+    let merged = Acc::merge(std::mem::take(acc), part);
+    *acc = merged;
+}
+
+fn malformed_json_sweep(ctx: &Ctx, acc: &mut Acc) {
+    let kinds: Vec<(&str, Box<dyn Fn(&str, &str) -> String + Sync>)> = vec![
+        ("syntax error after the filler", Box::new(|a: &str, b: &str| format!(r#"[{{"date":"2024-01-15","ticker":"X","action":"BUY","amount":"1","note":"{a}","price":"2" "fees":"{b}"}}]"#))),
+        ("unknown action", Box::new(|a: &str, b: &str| format!(r#"[{{"date":"2024-01-15","ticker":"X","note":"{a}","action":"FROB","amount":"1","price":"2","memo":"{b}"}}]"#))),
+        ("missing field", Box::new(|a: &str, b: &str| format!(r#"[{{"date":"2024-01-15","ticker":"X","note":"{a}","action":"BUY","price":"2","memo":"{b}"}}]"#))),
+        ("bad currency", Box::new(|a: &str, b: &str| format!(r#"[{{"date":"2024-01-15","ticker":"X","note":"{a}","action":"BUY","amount":"1","price":{{"amount":"2","currency":"ZZZ"}},"memo":"{b}"}}]"#))),
+    ];
+    let tools = ["parse_transactions", "calculate_report", "convert_to_dsl"];
+    let jobs: Vec<(usize, usize)> = (0..kinds.len()).flat_map(|k| (0..tools.len()).map(move |t| (k, t))).collect();
+    let part = jobs
+        .par_iter()
+        .fold(Acc::new, |mut acc, (k, t)| {
+            let sc = Scratch::new();
+            sc.all_years_config();
+            let mut m = Mcp::start(&sc);
+            let mut ids = vec![];
+            let mut payloads = vec![];
+            for pos in 0..150usize {
+                for ch in ["\u{20ac}", "\u{e9}"] {
+                    // filler of 150 ASCII bytes with one multi-byte character at `pos`, before and after the error site
+                    let filler: String = (0..150).map(|i| if i == pos { ch.to_string() } else { "a".to_string() }).collect();
+                    let payload = (kinds[*k].1)(&filler, &filler);
+                    let id = json!(ids.len() + 1);
+                    m.send_raw(&mcx::proc::tool_call(&id, tools[*t], json!({"transactions": payload})));
+                    ids.push(id.to_string());
+                    payloads.push(payload);
+                }
+            }
+            let ok = m.wait_for(&ids, Duration::from_secs(20));
+            acc.states += ids.len() as u64;
+            acc.validated += ids.len() as u64;
+            acc.add("malformed-json-requests", ids.len() as u64);
+            if !ok {
+                let missing: Vec<usize> = ids.iter().enumerate().filter(|(_, i)| !m.got.contains_key(*i)).map(|(n, _)| n).collect();
+                let first = missing.first().copied().unwrap_or(0);
+                acc.violation(&ctx.findings, "C20", Violation { clause: "request-not-answered-exactly-once".into(), input: Input::Json(json!({"tool": tools[*t], "transactions": payloads[first]})), detail: format!("{} of {} malformed-JSON requests ({}) to {} got no response within 20 s; first: request #{}", missing.len(), ids.len(), kinds[*k].0, tools[*t], first + 1), context: json!({"profile": "malformed-json-sweep", "request": {"params": {"arguments": {"transactions": payloads[first]}}}}) });
+            } else {
+                for (n, i) in ids.iter().enumerate() {
+                    if m.got[i].len() != 1 {
+                        acc.violation(&ctx.findings, "C20", Violation { clause: "request-not-answered-exactly-once".into(), input: Input::Json(json!({"tool": tools[*t], "transactions": payloads[n]})), detail: format!("{} responses", m.got[i].len()), context: json!({"profile": "malformed-json-sweep"}) });
+                    } else if tool_text(&m.got[i][0]).is_ok() {
+                        acc.violation(&ctx.findings, "C20", Violation { clause: "malformed-input-accepted".into(), input: Input::Json(json!({"tool": tools[*t], "transactions": payloads[n]})), detail: format!("a malformed JSON ledger ({}) was answered with a result", kinds[*k].0), context: json!({"profile": "malformed-json-sweep"}) });
+                    }
+                }
+            }
+            let alive = m.alive();
+            let (code, _, _) = m.finish();
+            if !alive || code != Some(0) {
+                acc.violation(&ctx.findings, "C20", Violation { clause: "server-died-before-eof".into(), input: Input::Json(json!({"tool": tools[*t], "kind": kinds[*k].0})), detail: format!("server alive before EOF: {alive}, exit {code:?}"), context: json!({"profile": "malformed-json-sweep"}) });
+            }
             acc
         })
         .reduce(Acc::new, Acc::merge);
